@@ -55,7 +55,7 @@ claim('C09', 'Mixed, mostly proved: utils (classification lookups, offset arithm
       '(incl. termination) and SCFG.bcmap_from_bytecode are proved for all instruction streams satisfying WFdis; the opcode classification is decided completely for the '
       'running interpreter (finite enumeration against dis.hasjrel/hasjabs and opcode._inline_cache_entries); the composition on real code objects is checked on a '
       'standard-library corpus against an independent ground truth (bounded).',
-      TB + '; WFdis (offsets increasing and even, code ends with a jump or return, jump targets are instruction offsets) and A-uncond assumed about dis; SCFG.__post_init__ assumed; '
+      TB + '; WFdis (offsets increasing and even, code ends with a jump or return, jump targets are instruction offsets) and A-uncond assumed about dis; '
       'only Python 3.12 is installed', 'finite case split over the interpreter\'s opcode table + ' + PROOF_PLUS_BOUNDED, '5.C09')
 claim('C10', 'Bounded only (exploration): static census of the regenerated tree against the restructured graph (every statement object once, every test once as an If.test, '
       'synthetic assignments as a multiset, compiles, reserved names only) on every accepted generated program.', SRC_NOTE,
